@@ -90,7 +90,7 @@ def key_of(v):
     return (tuple(v["sched"]),
             tuple((s, e) if sc else (-1, -1) for sc, s, e in zip(v["sched"], v["s"], v["e"])),
             tuple((bs, be) if u else (-1, -1) for u, bs, be in zip(v["used"], v["bs"], v["be"])),
-            tuple(v["ap"]))
+            tuple(v["ap"]), tuple(v.get("lv0") or ()))
 
 
 def enumerate_V(problems, declarative=False, workers=16, timeout=3600, cfg=None):
@@ -107,6 +107,8 @@ def enumerate_V(problems, declarative=False, workers=16, timeout=3600, cfg=None)
             if "pid" in rec and "sched" in rec:
                 pid = problems[rec["pid"] - 1]["id"]
                 V[pid][key_of(rec)] = rec
+        # TLC's workers print in a nondeterministic order: make everything downstream reproducible
+        V = {pid: dict(sorted(vs.items(), key=lambda kv: repr(kv[0]))) for pid, vs in V.items()}
         return V, stats
     finally:
         shutil.rmtree(d, ignore_errors=True)
